@@ -100,6 +100,7 @@ type c02Cfg struct {
 	Trusted uint32 `json:"trusted,omitempty"` // TrustedHeader index (hash taken from the source chain)
 	NoVerify bool  `json:"noverify,omitempty"` // VerifyTransactions off
 	Race     bool  `json:"race,omitempty"`     // a second goroutine flushes continuously during synchronisation (batch boundaries between single Puts)
+	Slow     bool  `json:"slow,omitempty"`     // with Race: slow-store mode (c02gate.go) - a write is let through only when every node goroutine is parked, so each flush stays in flight while the synchronising goroutine runs ahead
 }
 
 const (
@@ -167,6 +168,7 @@ type c02Batch struct {
 	Stor   map[string][]byte
 	Height uint32 // block height of the node (RAM) at commit time
 	HdrH   uint32
+	Who    string // slow-store mode: "D" = issued by the goroutine that runs the operation (direct), "B" = by another goroutine
 }
 
 type c02Rec struct {
@@ -181,6 +183,8 @@ type c02Rec struct {
 	// batch when the helper has not yet started. Every stage reads from the base store, so a delay here
 	// lets the helper start first and the finest batch sequence (all logical boundaries) is observed.
 	slowRead time.Duration
+	// gate (slow-store mode, c02gate.go): every write waits until the harness lets it through
+	gate *c02Gate
 }
 
 func c02IsStor(k string) bool {
@@ -219,10 +223,16 @@ func (s *c02Rec) Seek(r storage.SeekRange, f func(k, v []byte) bool) {
 	s.base.Seek(r, f)
 }
 func (s *c02Rec) PutChangeSet(puts map[string][]byte, stor map[string][]byte) error {
+	who := ""
+	if g := s.gate; g != nil {
+		w, leave := g.enter("put")
+		defer leave()
+		who = w
+	}
 	s.mu.Lock()
 	defer s.mu.Unlock()
 	h, hh := s.heights()
-	b := c02Batch{Kind: "put", Mem: c02CopyMap(puts), Stor: c02CopyMap(stor), Height: h, HdrH: hh}
+	b := c02Batch{Kind: "put", Mem: c02CopyMap(puts), Stor: c02CopyMap(stor), Height: h, HdrH: hh, Who: who}
 	err := s.base.PutChangeSet(puts, stor)
 	if err == nil {
 		s.batches = append(s.batches, b)
@@ -233,13 +243,19 @@ func (s *c02Rec) PutChangeSet(puts map[string][]byte, stor map[string][]byte) er
 	return err
 }
 func (s *c02Rec) SeekGC(r storage.SeekRange, keepCont func(k, v []byte) (bool, bool)) error {
+	who := ""
+	if g := s.gate; g != nil {
+		w, leave := g.enter("gc")
+		defer leave()
+		who = w
+	}
 	s.mu.Lock()
 	defer s.mu.Unlock()
 	if s.slowRead > 0 {
 		time.Sleep(s.slowRead)
 	}
 	h, hh := s.heights()
-	b := c02Batch{Kind: "gc", Mem: map[string][]byte{}, Stor: map[string][]byte{}, Height: h, HdrH: hh}
+	b := c02Batch{Kind: "gc", Mem: map[string][]byte{}, Stor: map[string][]byte{}, Height: h, HdrH: hh, Who: who}
 	err := s.base.SeekGC(r, func(k, v []byte) (bool, bool) {
 		keep, cont := keepCont(k, v)
 		if !keep {
